@@ -70,7 +70,7 @@ EXEC_TB = ('trusted base: executor assembly (mt.Thread recorded and run under th
            'thread switches only at yield points; in-memory transport; get_version shim')
 CHECKS['C07'] = (
     'property-based testing (Hypothesis, seeded) of executor schedules under a deterministic cooperative scheduler + '
-    'systematic enumeration (one-task interleavings, preemption sweep of every activity pair, two-task sweeps, start-up reports, limits after a start-up report, launch bursts; Flux executor work() incl. failing pre_launch commands) against an exactly-once '
+    'systematic enumeration (one-task interleavings, preemption sweep of every activity pair, two-task sweeps, start-up reports, limits after a start-up report, launch bursts; Flux executor work() incl. failing pre_launch commands; Dragon executor against a stand-in runtime) against an exactly-once '
     'oracle over the transport event log',
     'random and systematic search over interleavings of intake, the real watcher loop, the real timeout watcher and '
     'cancel handlers x launch fault points x exit codes x timeouts through the real Popen (and NOOP) executor; per '
